@@ -17,7 +17,7 @@ from html.parser import HTMLParser
 
 import impl
 import gens_text as G  # noqa: F401
-from wire import Ok, Err, oracle_batch  # noqa: F401
+from wire import Ok, Err, Some, oracle_batch  # noqa: F401
 from pycaption import DFXPReader, SAMIReader, WebVTTReader, SRTReader, MicroDVDReader
 
 TABLES = ("Generated.v", "GenText.v")     # the SAMI entity table is generated from the working tree
@@ -79,6 +79,34 @@ def txt_item(rng, fmt, s):
     return ("t", cs)
 
 
+def _entity_names():
+    from html.entities import name2codepoint
+    names = sorted(set(name2codepoint) | {"apos"})
+    # names that exist in two spellings differing only by case decode to different characters
+    lower = {}
+    for n in names:
+        lower.setdefault(n.lower(), []).append(n)
+    cased = sorted(n for group in lower.values() if len(group) > 1 for n in group)
+    cp = dict(name2codepoint)
+    cp["apos"] = 0x27                      # HTML5 / XML; the table of html.entities (HTML 4) lacks it
+    return names, cased, cp
+
+
+ENT_NAMES, ENT_CASED, ENT_CP = _entity_names()
+
+
+ENT_SPECIAL = ["apos", "quot", "amp", "lt", "gt", "nbsp"]      # apos is the entry pycaption adds to the table itself
+
+
+def rand_entity(rng):
+    r = rng.random()
+    return ("e", rng.choice(ENT_CASED) if r < 0.5 else rng.choice(ENT_SPECIAL) if r < 0.7 else rng.choice(ENT_NAMES))
+
+
+def rand_wrap(rng):
+    return ("w", rng.choice([0, 0, 0, 100, 100, 200]) + rng.randint(0, 6))
+
+
 VTT_UNKNOWN = ["bar", "verbatim", "i2", "cite", "vv", "rtl", "language", "blink", "x", "under", "br"]
 STAMPS = ["00:01.000", "12:34.567", "1:00:01.000", "100:59:59.999"]
 
@@ -105,13 +133,19 @@ def rand_line(rng, fmt, adversarial, depth=0, wraps=True):
             items += [("unk", False, name)] + inner + [("unk", True, name)]
         elif fmt == "WebVTT" and r < 0.38:
             items.append(("ts", rng.choice(STAMPS)))
+        elif fmt == "SAMI" and r > 0.8:
+            if rng.random() < 0.5:
+                items.append(txt_item(rng, fmt, rand_word(rng, fmt, 0.0)))
+            items.append(rand_entity(rng))
+            if rng.random() < 0.3:
+                items.append(txt_item(rng, fmt, rand_word(rng, fmt, 0.0)))
         else:
             items.append(txt_item(rng, fmt, rand_word(rng, fmt, adversarial)))
         k += 1
         if k < nwords:
-            prev_is_text = items[-1][0] == "t"
+            prev_is_text = items[-1][0] in ("t", "e")
             if wraps and fmt in ("DFXP", "SAMI") and prev_is_text and rng.random() < 0.3:
-                items.append(("w", rng.randint(0, 6)))
+                items.append(rand_wrap(rng))
                 items.append(txt_item(rng, fmt, rand_word(rng, fmt, adversarial)))   # a wrap is always inside text
                 k += 1
                 if k < nwords:
@@ -128,10 +162,10 @@ def rand_cue(rng, fmt, adversarial):
         if i:
             items.append(("br",))
         if fmt in ("DFXP", "SAMI") and rng.random() < 0.3:
-            items.append(("w", rng.randint(0, 6)))          # indentation at the start of a source line
+            items.append(rand_wrap(rng))                    # a source line end + indentation before the text
         items += rand_line(rng, fmt, adversarial)
         if fmt in ("DFXP", "SAMI") and rng.random() < 0.2:
-            items.append(("w", rng.randint(0, 6)))          # ... and before the end
+            items.append(rand_wrap(rng))                    # ... and before the end
     return items
 
 
@@ -153,6 +187,8 @@ def wire_items(items):
             out.append([5, list(it[1]), [[c, sp] for c, sp in it[2]]])
         elif k == "ts":
             out.append([6, it[1]])
+        elif k == "e":
+            out.append([8, it[1], ENT_CP[it[1]]])
         else:
             out.append([7, bool(it[1]), it[2]])
     return out
@@ -190,7 +226,7 @@ def read_doc(fmt, doc):
     for lang in cs.get_languages():
         for c in cs.get_captions(lang):
             nodes = []
-            for n in c.nodes:
+            for n in (getattr(c, "nodes", None) or []):     # a reader may leave None / node-less captions behind
                 if n.type_ == 1:
                     nodes.append(("t", n.content))
                 elif n.type_ == 3:
@@ -367,6 +403,82 @@ def run_batch(ctx, res, fmt, cues, stream):
                                              "content": s, "bs4": t, "spec": e})
 
 
+IDENTS = [None, None, "1", "3", "cue-2", "intro", "a b c", "Chapter 1 - start", "NOTEBOOK"]
+OTHER_BLOCKS = [["NOTE"], ["NOTE this is a comment"], ["NOTE", "a multi-line", "comment block"],
+                ["NOTE check <i>this</i> &amp; that", "second line"],
+                ["STYLE", "::cue {", "  color: papayawhip;", "}"], ["STYLE", "::cue(b) { color: peachpuff; }"],
+                ["REGION", "id:fred width:40% lines:3"], ["NOTE TODO", "1", "2"], ["just some stray text"]]
+HEADERS = [["WEBVTT"], ["WEBVTT - a title"], ["WEBVTT", "Kind: captions", "Language: en"]]
+
+
+def run_vtt_documents(ctx, res, ndocs):
+    rng = ctx.rng
+    specs = []
+    for _ in range(ndocs):
+        blocks = []
+        cues = []
+        for _ in range(rng.randint(1, 6)):
+            if rng.random() < 0.45:
+                blocks.append([1, list(rng.choice(OTHER_BLOCKS)), rng.randint(1, 2)])
+            else:
+                items = rand_cue(rng, "WebVTT", rng.choice([0.2, 0.5]))
+                s, e = G.times(len(cues))
+                ident = rng.choice(IDENTS)
+                blocks.append([0, None if ident is None else Some(ident), G.vtt_timing(s, e) + rng.choice(["", " align:left", " position:10%"]),
+                               wire_items(items), rng.randint(1, 3)])
+                cues.append(items)
+        if not cues:
+            continue
+        if rng.random() < 0.4:
+            blocks[-1][-1] = 0                     # the document ends right after the last block
+        specs.append((list(rng.choice(HEADERS)), blocks, cues))
+    lines_all = oracle_batch([(410, [h, b]) for h, b, _ in specs])
+    payloads = oracle_batch([(400, [2, wire_items(c)]) for _, _, cs in specs for c in cs])
+    pos = 0
+    jobs = []
+    for (h, b, cues), lines in zip(specs, lines_all):
+        pl = payloads[pos:pos + len(cues)]
+        pos += len(cues)
+        why = next((w for w in (in_domain("WebVTT", s) for s in pl) if w), None)
+        if why:
+            res["distribution"][why] = res["distribution"].get(why, 0) + 1
+            continue
+        doc = "\n".join(lines) + rng.choice(["", "\n"])
+        jobs.append((doc, cues, b))
+    models = oracle_batch([(409, [True, doc.splitlines()]) for doc, _, _ in jobs])
+    for (doc, cues, blocks), m in zip(jobs, models):
+        res["evaluations"] += len(cues)
+        res["distribution"]["vtt_documents"] = res["distribution"].get("vtt_documents", 0) + 1
+        res["nontrivial"].add(("WebVTT-doc", doc))
+        got = read_doc("WebVTT", doc)
+        base = {"fmt": "WebVTT", "replay": "vttdoc", "document": doc, "input": [wire_items(c) for c in cues],
+                "shape": "vtt-document-blocks"}
+        if not isinstance(got, Ok):
+            res["violations"].append(dict(base, kind="reader-raises", what="WebVTT reader raised on a document with identifiers / NOTE blocks"))
+            continue
+        if len(got.v) != len(cues):
+            res["violations"].append(dict(base, kind="cue-count", observed=[G.py_lines(n) for n in got.v],
+                                          what=f"WebVTT: {len(cues)} cues in the document, {len(got.v)} captions read "
+                                               "(identifier / NOTE / STYLE lines must never become captions)"))
+            continue
+        oks = oracle_batch([(408, [wire_items(c), G.py_lines(n)]) for c, n in zip(cues, got.v)])
+        if any(o != 1 for o in oks):
+            k = next(i for i, o in enumerate(oks) if o != 1)
+            res["violations"].append(dict(base, kind="text-differs", observed=G.py_lines(got.v[k]),
+                                          what=f"WebVTT: cue {k} reads {G.py_lines(got.v[k])!r}: not the displayed cue text"))
+            continue
+        mn = [[n for n in (model_nodes([x]) or [])] for x in m]
+        if mn != got.v:
+            ml = oracle_batch([(408, [wire_items(c), G.py_lines(n)]) for c, n in zip(cues, mn)]) if len(mn) == len(cues) else [0]
+            if any(o != 1 for o in ml):
+                res["disagreements"].append({"fmt": "WebVTT", "what": "line-loop model and reader differ on a document",
+                                             "document": doc, "model": mn, "impl": got.v})
+            else:
+                res["distribution"]["model_exact_differs"] = res["distribution"].get("model_exact_differs", 0) + 1
+        else:
+            res["distribution"]["model_exact_equal"] = res["distribution"].get("model_exact_equal", 0) + 1
+
+
 def norm_tree(t):
     out = []
     for x in t:
@@ -381,6 +493,11 @@ def shape_of(fmt, items, content):
     kinds = [it[0] for it in items]
     if fmt in ("DFXP", "SAMI") and "w" in kinds:
         return "wrapped-text"
+    for a, b, c in zip(items, items[1:], items[2:]):
+        if a[0] == "c" and c[0] == "o" and b[0] == "t" and all(chr(x[0]).isspace() for x in b[1]):
+            return "space-between-inline-elements"
+    if fmt == "SAMI" and "e" in kinds:
+        return "sami-named-entity"
     if fmt == "SAMI" and any(it[0] == "t" and any(sp != 0 or c in (38, 60, 62) for c, sp in it[1]) for it in items):
         return "sami-entity"
     if fmt == "WebVTT" and "unk" in kinds:
@@ -408,11 +525,33 @@ def tokens_for(fmt):
                 [("t", [(38, 1), (ord("l"), 0), (ord("t"), 0), (ord(";"), 0)])],        # &amp;lt;
                 [("t", [(38, 2), (ord("l"), 0), (ord("t"), 0), (ord(";"), 0)])],        # &#38;lt;
                 [("t", [(60, 2), (ord("b"), 0), (62, 2)])],                             # &#60;b&#62;
-                [("t", [(65, 4)])], [("t", [(60, 1)])], [("t", [(62, 0)])], [("t", [(160, 1)])], [("t", [(39, 1)])]]
+                [("t", [(65, 4)])], [("t", [(60, 1)])], [("t", [(62, 0)])], [("t", [(160, 1)])], [("t", [(39, 1)])],
+                [("w", 100)], [("w", 203)]]
+        if fmt == "SAMI":
+            toks += [[("e", n)] for n in ("Eacute", "eacute", "Prime", "apos", "amp")]
+        # whole inline elements as single tokens: adjacent elements separated only by a white-space text node
+        toks += [[("o", 0), T("Hello"), ("c", 0)], [("o", 1), T("world"), ("c", 1)]]
         return toks
     if fmt == "SRT":
         return [[T("a")], [T(" ")], [T("<i>")], [T("&amp;")], [T("1")], [T("-->")], [("br",)], [T("|")], [T("{y:i}")]]
     return [[T("a")], [T(" ")], [T("<i>")], [T("&amp;")], [T("{1}{2}")], [("br",)], [T("/")], [T("{y:i}")]]
+
+
+def inline_space_grid(fmt):
+    """two inline elements (or an element and text) separated only by a white-space text node on the same source
+    line, flat and nested: the separator is a word separator"""
+    T = lambda s: ("t", [(ord(ch), 0) for ch in s])    # noqa: E731
+    A = [("o", 0), T("Hello"), ("c", 0)]
+    B = [("o", 1), T("world"), ("c", 1)]
+    out = []
+    for sp in (" ", "  ", "\t", " \t "):
+        out.append(A + [T(sp)] + B)
+        out.append([T("Hello")] + [T(sp)] + B)
+        out.append(A + [T(sp)] + [T("world")])
+        out.append([("o", 2)] + A + [T(sp)] + B + [("c", 2)])
+        out.append([("o", 2)] + A + [("c", 2)] + [T(sp)] + [("o", 2)] + B + [("c", 2)])
+        out.append(A + [T(sp)] + B + [T(sp)] + A)
+    return out
 
 
 def valid_sequence(fmt, items):
@@ -446,7 +585,9 @@ def valid_sequence(fmt, items):
                     return False
     if any(s[0] != "v" for s in stack):
         return False
-    for a, b in zip(items, items[1:]):
+    # a source line wrap next to an inline tag (only white space between them) is outside the domain (design/C04.md)
+    solid = [it for it in items if not (it[0] == "t" and all(chr(c).isspace() for c, _ in it[1]))]
+    for a, b in zip(solid, solid[1:]):
         if a[0] == "w" and b[0] in ("o", "c"):
             return False
         if b[0] == "w" and a[0] in ("o", "c"):
@@ -456,7 +597,7 @@ def valid_sequence(fmt, items):
 
 def run(ctx):
     res = {"evaluations": 0, "nontrivial": set(), "violations": [], "disagreements": [], "distribution": {},
-           "streams": 4, "notes": []}
+           "streams": 5, "notes": []}
     rng = ctx.rng
     # B: exhaustive short token sequences
     maxlen = ctx.n(3, 4)
@@ -464,7 +605,7 @@ def run(ctx):
         toks = tokens_for(fmt)
         seqs = []
         for L in range(1, maxlen + 1):
-            if len(toks) ** L > 200000:
+            if len(toks) ** L > ctx.n(12000, 200000):
                 # alphabet too large for this length: sampled (WebVTT at length >= 3/4, DFXP/SAMI at 4 in thorough)
                 for _ in range(ctx.n(6000, 120000)):
                     seqs.append(sum((rng.choice(toks) for _ in range(L)), []))
@@ -472,6 +613,8 @@ def run(ctx):
             for combo in itertools.product(toks, repeat=L):
                 seqs.append(sum(combo, []))
         seqs = [s for s in seqs if valid_sequence(fmt, s)]
+        if fmt in ("DFXP", "SAMI"):
+            seqs = inline_space_grid(fmt) + seqs
         res["distribution"]["B_sequences_" + fmt] = len(seqs)
         # visible?
         disp = oracle_batch([(401, wire_items(s)) for s in seqs])
@@ -485,6 +628,7 @@ def run(ctx):
             adv = rng.choice([0.2, 0.5, 0.8])
             cues = [rand_cue(rng, fmt, adv) for _ in range(12)]
             run_batch(ctx, res, fmt, cues, "A")
+    run_vtt_documents(ctx, res, ctx.n(250, 8000))
     # shrink the first violation of every kind
     seen = set()
     for i, v in enumerate(res["violations"]):
@@ -529,6 +673,8 @@ def check_one(fmt, items):
 
 
 def shrink(v):
+    if v.get("replay") != "read":
+        return v
     fmt, items = v["fmt"], [tuple(x) if not isinstance(x, tuple) else x for x in v["input"]]
     budget = [120]
 
@@ -590,4 +736,12 @@ def replay(ctx, rec):
                 items.append(tuple(it))
         ok, detail = check_one(rec["fmt"], items)
         return (not ok), detail
+    if rec.get("replay") == "vttdoc":
+        got = read_doc("WebVTT", rec["document"])
+        if not isinstance(got, Ok):
+            return True, "reader raises"
+        if len(got.v) != len(rec["input"]):
+            return True, [G.py_lines(n) for n in got.v]
+        oks = oracle_batch([(408, [c, G.py_lines(n)]) for c, n in zip(rec["input"], got.v)])
+        return any(o != 1 for o in oks), [G.py_lines(n) for n in got.v]
     return False, "unknown replay kind"
